@@ -546,7 +546,7 @@ def c15(tier):
                 "over drawing, markup, multi-byte and double-width characters, on multi-row diagrams. "
                 "non-trivial = the base input has at least one quoted segment")
     r = common.rng("C15")
-    cfg = simple_cfg("MC_C15", {"L": 5 if tier == "quick" else 7, "Alphabet": tla_set([34, 124, 45, 97, 19968, 233, 60, 32])},
+    cfg = simple_cfg("MC_C15", {"L": 5 if tier == "quick" else 6, "Alphabet": tla_set([34, 124, 45, 97, 19968, 233, 60, 32])},
                      ["MechEqualsRef", "KeepsColumns"])
     run.model("MC_Quote", cfg)
     content_alpha = gen.ASCII_DRAW + "<>&';" + gen.LABELS[:8] + gen.WIDE + gen.LATIN + "   "
